@@ -151,3 +151,33 @@ Example ex_upgrade_peer_hangs_up :
   snd (fst r) = RNil /\ snd r = mkSts false 6697 600 ex_t false time_zero /\
   r = start_conn sort_strs ex_cfg 6667 sts_init [ex_plain; ex_tls].
 Proof. vm_compute. repeat split. Qed.
+
+(* DisableSTS while the application lists sts in SupportedCaps: requested, acknowledged, not acted on *)
+Definition ex_cfg_disabled_listed : cap_cfg :=
+  mkCfg None true false false [(s_sts, [])] true None [] (bs "me") (bs "user") (bs "Real Name").
+
+Example ex_disabled_listed :
+  let r := start_conn sort_strs ex_cfg_disabled_listed 6667 sts_init [ex_plain; ex_tls] in
+  amem s_sts (possible_caps ex_cfg_disabled_listed false) = true /\
+  List.map (fun l => (l_port l, l_tls l)) (fst (fst r)) = [(6667, false)]%Z /\
+  List.map l_outs (fst (fst r)) =
+    [[[Write s_CAP [s_REQ; bs "multi-prefix sts"]]; [Write s_CAP [s_END]]]] /\
+  snd (fst r) = RNil /\ snd r = sts_init.
+Proof. vm_compute. repeat split. Qed.
+
+(* renewal: 600 s learnt, 400 s later the same 600 s acknowledged again (connections dropped),
+   another 400 s later the dial fails: 800 s after the first receipt, 400 s after the renewal *)
+Definition ex_tls_at (now : Z) (e : conn_end) : conn_script :=
+  mkConn true now true [(now, [ex_star; s_LS; bs "sts=duration=600"]); (now, ack_params ex_star (bs "sts"))] e.
+
+Example ex_renewal :
+  let t1 := (ex_t + 400 * second_ns)%Z in
+  let t2 := (ex_t + 800 * second_ns)%Z in
+  let calls := [[ex_tls_at ex_t EndIOError]; [ex_tls_at t1 EndIOError]; [ex_dial_fails t2]; [ex_tls_at t2 EndIOError]] in
+  List.map (fun r => (List.map (fun l => (l_port l, l_tls l)) (fst (fst r)), snd (fst r), sts_enabled (snd r)))
+           (connects sort_strs ex_cfg 6667 (mkSts false 6697 (-1) time_zero false time_zero) calls) =
+  [([(6697, true)], ROther, true); ([(6697, true)], ROther, true);
+   ([(6697, true)], RSTSUpgradeFailed, true); ([(6697, true)], ROther, true)]%Z /\
+  sts_expired t2 (mkSts false 6697 600 ex_t false time_zero) = true /\
+  sts_expired t2 (mkSts false 6697 600 t1 false time_zero) = false.
+Proof. vm_compute. repeat split. Qed.
